@@ -56,19 +56,29 @@ def floors(ctx):
     return {"evaluations": 3000 if q else 30000, "match_deep": 100 if q else 1000,
             "multi_match": 100 if q else 1000, "match_is_falsy": 100 if q else 1000,
             "no_match_none": 100 if q else 1000, "match_is_start": 20, "sought_not_identical": 100,
-            "some_vertex_lacks_attr": 100, "match_only_outside_universe": 10}
+            "some_vertex_lacks_attr": 100, "match_only_outside_universe": 10, "cases_with_caching_on": 100}
 
 
 def _matches(v, attr, val):
     return hasattr(v, attr) and getattr(v, attr) == val
 
 
-def run_case(ctx, spec, si, attr, vi, absent=None, _shrinking=False):
+def run_case(ctx, spec, si, attr, vi, absent=None, _shrinking=False, cache=False):
+    Vertex.NEIGHBOR_CACHING = bool(cache)
+    try:
+        return _run_case(ctx, spec, si, attr, vi, absent, _shrinking, cache)
+    finally:
+        Vertex.NEIGHBOR_CACHING = False
+
+
+def _run_case(ctx, spec, si, attr, vi, absent, _shrinking, cache):
     g = graphs.build(spec)
+    if cache:
+        ctx.count("cases_with_caching_on")
     start, uni = g.verts[si], g.uni
     val = sought(vi) if absent is None else ABSENT[absent]
     found = []
-    case = {"spec": spec, "start": si, "attr": attr, "vi": vi, "absent": absent}
+    case = {"spec": spec, "start": si, "attr": attr, "vi": vi, "absent": absent, "cache": bool(cache)}
     for name, (sf, tf) in SEARCH.items():
         order = tf(uni, start)
         exp = None
@@ -127,12 +137,12 @@ def run_case(ctx, spec, si, attr, vi, absent=None, _shrinking=False):
 
         def fails(edges):
             q = trav.Quiet()
-            run_case(q, dict(spec, edges=edges), si, attr, vi, absent, _shrinking=True)
+            run_case(q, dict(spec, edges=edges), si, attr, vi, absent, _shrinking=True, cache=cache)
             return first in q.v
 
         small = ddmin(list(spec["edges"]), fails)
         if len(small) < len(spec["edges"]) and fails(small):
-            run_case(ctx, dict(spec, edges=small), si, attr, vi, absent, _shrinking=True)
+            run_case(ctx, dict(spec, edges=small), si, attr, vi, absent, _shrinking=True, cache=cache)
     return found
 
 
@@ -181,9 +191,9 @@ def run(ctx):
         for _ in range(3):
             si = r.choice(starts)
             if r.random() < 0.8:
-                run_case(ctx, spec, si, "key", r.choice(pool))
+                run_case(ctx, spec, si, "key", r.choice(pool), cache=r.random() < 0.4)
             else:
-                run_case(ctx, spec, si, "key", 0, absent=r.randrange(len(ABSENT)))
+                run_case(ctx, spec, si, "key", 0, absent=r.randrange(len(ABSENT)), cache=r.random() < 0.4)
         # other attribute names: the construction index (unique) and a real property
         run_case(ctx, dict(spec, attrs={}), r.choice(starts), "idx", 1)
         k += 1
@@ -202,6 +212,6 @@ def replay(ctx, case):
     for a in (spec.get("attrs") or {}).values():
         if isinstance(a.get("key"), list):
             a["key"] = tuple(a["key"])
-    run_case(ctx, spec, case["start"], case["attr"], case["vi"], case.get("absent"))
+    run_case(ctx, spec, case["start"], case["attr"], case["vi"], case.get("absent"), cache=case.get("cache", False))
     ctx.nontrivial("replay-a")
     ctx.nontrivial("replay-b")
